@@ -2,7 +2,9 @@ package refmal
 
 import (
 	"fmt"
+
 	"verifharness/canon"
+	"verifharness/colmodel"
 )
 
 func berr(msg string) *Err { return &Err{Class: BuiltinErr, Msg: msg} }
@@ -355,6 +357,117 @@ func installBuiltins(it *Interp) {
 			return nil, &Err{Class: Arity}
 		}
 		return a[0], nil
+	})
+
+	// the collection vocabulary comes from the independent collection model (colmodel): Value -> value, Error -> builtin
+	// error, Unspecified -> the case is discarded; function arguments are adapted so that an error raised by the lisp
+	// function travels through the builtin unchanged
+	for _, name := range []string{"assoc", "dissoc", "get", "get-in", "assoc-in", "update", "update-in", "contains?", "merge", "vec", "seq", "take", "drop", "subvec", "hash-set", "set", "range", "vector?", "map?", "set?", "sequential?", "keyword?", "string?", "number?", "symbol?"} {
+		name := name
+		it.def(name, func(it *Interp, a []*canon.Node) (*canon.Node, *Err) {
+			args := make([]*canon.Node, len(a))
+			for i, x := range a {
+				args[i] = x
+				if x.K == canon.Opaque {
+					switch x.X.(type) {
+					case *Closure, *Builtin:
+						f := x
+						args[i] = colmodel.FnNode("lisp-fn", func(fa []*canon.Node) colmodel.Outcome {
+							v, err := it.Apply(f, fa)
+							if err != nil {
+								return colmodel.Outcome{K: colmodel.Error, Why: "function failed", Payload: err}
+							}
+							return colmodel.Outcome{K: colmodel.Value, V: v}
+						})
+					}
+				}
+			}
+			o := colmodel.Call(name, args)
+			switch o.K {
+			case colmodel.Value:
+				if o.Unordered {
+					return nil, unspecified(name + " result order")
+				}
+				return o.V, nil
+			case colmodel.Error:
+				if e, ok := o.Payload.(*Err); ok {
+					return nil, e
+				}
+				return nil, berr(name + ": " + o.Why)
+			}
+			return nil, unspecified(name + ": " + o.Why)
+		})
+	}
+	// atoms (reference objects)
+	it.def("atom", func(it *Interp, a []*canon.Node) (*canon.Node, *Err) {
+		if len(a) != 1 {
+			return nil, berr("atom arity")
+		}
+		return &canon.Node{K: canon.Opaque, S: "*concurrent.Atom", X: &AtomCell{V: a[0]}}, nil
+	})
+	it.def("deref", func(it *Interp, a []*canon.Node) (*canon.Node, *Err) {
+		if len(a) != 1 {
+			return nil, berr("deref arity")
+		}
+		if c, ok := a[0].X.(*AtomCell); ok && a[0].K == canon.Opaque {
+			return c.V, nil
+		}
+		return nil, berr("deref of a non-reference")
+	})
+	it.def("reset!", func(it *Interp, a []*canon.Node) (*canon.Node, *Err) {
+		if len(a) != 2 {
+			return nil, berr("reset! arity")
+		}
+		c, ok := a[0].X.(*AtomCell)
+		if !ok || a[0].K != canon.Opaque {
+			return nil, berr("reset! of a non-atom")
+		}
+		c.V = a[1]
+		return a[1], nil
+	})
+	it.def("swap!", func(it *Interp, a []*canon.Node) (*canon.Node, *Err) {
+		if len(a) < 2 {
+			return nil, berr("swap! arity")
+		}
+		c, ok := a[0].X.(*AtomCell)
+		if !ok || a[0].K != canon.Opaque {
+			return nil, berr("swap! of a non-atom")
+		}
+		v, err := it.applyFromBuiltin(a[1], append([]*canon.Node{c.V}, a[2:]...))
+		if err != nil {
+			return nil, err // a failing update leaves the atom unchanged
+		}
+		c.V = v
+		return v, nil
+	})
+	// reduce is a lisp closure of three parameters in the real library
+	it.def("reduce", func(it *Interp, a []*canon.Node) (*canon.Node, *Err) {
+		if len(a) != 3 {
+			return nil, &Err{Class: Arity}
+		}
+		if !isSeq(a[2]) {
+			if a[2].K == canon.Nil {
+				return a[1], nil
+			}
+			return nil, unspecified("reduce over a non-sequence")
+		}
+		acc := a[1]
+		for _, x := range a[2].L {
+			if a[0].K != canon.Opaque {
+				return nil, &Err{Class: NotCallable}
+			}
+			switch a[0].X.(type) {
+			case *Closure, *Builtin:
+			default:
+				return nil, &Err{Class: NotCallable}
+			}
+			v, err := it.Apply(a[0], []*canon.Node{acc, x})
+			if err != nil {
+				return nil, err
+			}
+			acc = v
+		}
+		return acc, nil
 	})
 
 	// library macros by their documented meaning (implemented natively)
